@@ -1086,6 +1086,7 @@ func runC07(c *Ctx) {
 	c.omoList("C07")
 	c.omoObj("C07")
 	c.derivedCorners("C07")
+	c.cloneSequences()
 	c.rawBytes("C07")
 	// long lists that differ only near the end, and deep trees that differ at the bottom
 	for _, n := range []int{255, 1023, 1024, 1025, 1026, 1027, 1030} {
@@ -1166,6 +1167,8 @@ func (c *Ctx) fmtLine(t *Tree, n int) {
 func runC16(c *Ctx) {
 	r := c.R
 	c.St.Rule = "value trees x indents; non-trivial = depth >= 2 or a string needing an escape; distinct by (tree, indent)"
+	c.derivedCorners("C16")
+	c.lateDerived("C16")
 	indents := []int{-1, 0, 1, 2, 4, 10, 11}
 	if !c.Quick {
 		indents = []int{-5, -1, 0, 1, 2, 3, 4, 5, 6, 7, 8, 9, 10, 11, 100, math.MinInt64, math.MaxInt64}
